@@ -136,10 +136,11 @@ func runGroups(in *Sx) *Sx {
 }
 
 type groupsGen struct {
-	rng    *rand.Rand
-	nextH  int
-	nextR  int
-	probes []*Sx
+	rng      *rand.Rand
+	nextH    int
+	nextR    int
+	probes   []*Sx
+	rootUsed map[string]bool
 }
 
 func (g *groupsGen) hs(max int) *Sx {
@@ -184,7 +185,22 @@ func (g *groupsGen) stmts(depth int, prefix string, n int) []*Sx {
 		if rng.Intn(4) == 0 {
 			path += "/{id}"
 		}
+		slashed := false
+		if rng.Intn(6) == 0 { // a trailing slash is an extra empty segment and must survive the concatenation
+			path += "/"
+			slashed = true
+		} else if rng.Intn(15) == 0 && !g.rootUsed[prefix] { // the group's own root
+			if g.rootUsed == nil {
+				g.rootUsed = map[string]bool{}
+			}
+			g.rootUsed[prefix] = true
+			path = "/"
+			slashed = true
+		}
 		full := prefix + path
+		if slashed { // ... and the same path without it must not be served
+			g.probes = append(g.probes, T("probe", X("GET"), X(instantiate(strings.TrimSuffix(full, "/")))))
+		}
 		switch r := rng.Intn(20); {
 		case r < 4:
 			m := ms[rng.Intn(len(ms))]
